@@ -376,7 +376,7 @@ def real_apply(op, pool, vals):
             del T()[op['c']]
         return None
     if k == 'row':
-        return T()[op['i']]
+        return T()[np.int64(op['i'])] if op.get('np') else T()[op['i']]
     if k == 'slice':
         return T()[slice(*op['s'])]
     if k == 'mask':
@@ -690,6 +690,8 @@ def gen_history(rng, nops):
             op = {'op': 'new_from_table', 't': t, 'dst': dst}
         elif k == 'row' and m.n:
             op = {'op': 'row', 't': t, 'i': rng.randrange(-m.n, m.n)}
+            if rng.random() < 0.25:
+                op['np'] = True      # a numpy integer is an integer
         elif k == 'slice' and m.cols:
             r = lambda: rng.choice([None, 0, 1, 2, -1, -2, 5, m.n])
             op = {'op': 'slice', 't': t, 's': [r(), r(), rng.choice([None, None, 1, 2, -1, 3])], 'dst': dst}
